@@ -1,6 +1,177 @@
-import BioCantor.Spec.Query
-import BioCantor.Model.Query
+/-
+  C09 — collection queries return exactly the specified members, self-consistently.
+
+  Model    : Model/Query.lean   (mirror of gene/collections.py 455-974 + gene.py / feature.py / variants.py
+             `query_by_guids`; executes the GENERATED `Gen.bins` and `Gen.SingleInterval_parent_to_relative_pos`)
+  Spec     : Spec/Query.lean    (membership clause `keepSpec`, documented bounds, sequence restriction, set-builder
+             specs of the id queries; no bins)
+  Lemmas   : Proofs/QueryKept, QueryResult, QueryBounds, QueryMain, QueryPos, QueryFindings, QueryIds
+
+  T1  position queries keep exactly `specFilter` — the bin pre-filter never changes the answer (this is where the
+      C16 theorems `never_hides_bed`, `bins_one_bed`, `bins_all_is_set` about the generated kernel are used);
+      rejected ranges = exactly the documented ones.
+  T2  result bounds = documented bounds; `_subset_parent` yields the chromosome stretch [start,end) of the source
+      sequence (whole-chromosome and already-chunked sources); members keep coordinates / identifiers / guids and
+      their sequence is the source's restricted to the new bounds.
+  T3  GUID / identifier / interval-GUID queries = set-builder specs; kept children keep only requested grandchildren.
+  F   the modelled CURRENT code deviates on the finding inputs (F-C09a, F-C09b, F-C09c, F-C19f): witnesses below;
+      the `meets` theorems are stated on the complement (their hypotheses say exactly which inputs are excluded).
+-/
+import BioCantor.Proofs.QueryFindings
 import BioCantor.Props.C16
 namespace BioCantor.Props.C09
-theorem placeholder : True := trivial
+open BioCantor BioCantor.Spec BioCantor.Spec.Query BioCantor.Model.Query BioCantor.Proofs.Query
+
+/-! ## T1 — membership -/
+
+/-- T1a: for ALL collections whose children contain their grandchildren (`ChildWF`: true by construction, a gene's
+    span is the min/max of its transcripts), ALL valid non-negative ranges and ALL flags, `_query_by_position` keeps
+    exactly `specFilter` of the children in iteration order — with or without the bin pre-filter
+    (`completely_within and start and end`), whatever `Gen.bins` assigns.
+    `hv` excludes only F-C09a (`coding_only` on a collection holding a VariantIntervalCollection). -/
+theorem query_kept_is_specFilter (src : Source) (s e : Int) (cw co : Bool) (hs : 0 ≤ s) (hse : s < e)
+    (hwf : ∀ c ∈ src.children, ChildWF c) (hv : co = true → ∀ c ∈ src.children, c.kind ≠ .var) :
+    queryKept src s e cw co = .ok (specFilter (iterChildren src) co cw s e) :=
+  queryKept_eq src s e cw co hs hse hwf hv
+
+/-- T1a': the iteration order is a permutation of the children, so as a SET the kept members are
+    `specFilter src.children`. -/
+theorem query_kept_perm (src : Source) (s e : Int) (cw co : Bool) :
+    (specFilter (iterChildren src) co cw s e).Perm (specFilter src.children co cw s e) :=
+  specFilter_perm (iterChildren_perm src) co cw s e
+
+/-- T1b: the bin pre-filter is sound on its own: whenever the span test would keep a child, one of its
+    grandchildren's bins is in the query's bin set (C16 `never_hides_bed` on the generated `bins`). -/
+theorem prefilter_never_hides_kept (s e : Int) (S : GenP.RangeSet) (c : Child) (hc : ChildWF c) (hs : 0 ≤ s)
+    (hS : Gen.bins s e .bed false = .ok (.many S)) (hin : s ≤ c.start ∧ c.stop ≤ e) :
+    anyBinIn S c.gcs = .ok true := by
+  rw [anyBinIn_eq, prefilter_never_hides s e S c hc hs hS hin]
+
+/-- T1c: rejected ranges = exactly the documented ones (incl. `start == end`), in the coded order of the cascade. -/
+theorem rejected_ranges_exact (src : Source) (qs qe : Option Int) (bs be : Int)
+    (hb : selfBounds src = some (bs, be)) :
+    validate src qs qe =
+      if validRange bs be (optOr qs bs) (optOr qe be) = true then .ok (optOr qs bs, optOr qe be)
+      else .error (.doc .InvalidQuery) :=
+  validate_eq src qs qe bs be hb
+
+/-- the span kernels are the textbook predicates on valid intervals -/
+theorem overlap_kernel (s e a b : Int) (h1 : s ≤ e) (h2 : a ≤ b) :
+    overlapInt (s, e) (a, b) = decide (a < e ∧ s < b ∧ a < b ∧ s < e) := overlapInt_iff s e a b h1 h2
+theorem contains_kernel (s e a b : Int) (h : s < e) (h2 : a ≤ b) :
+    containsInt (s, e) (a, b) = decide (s ≤ a ∧ b ≤ e ∧ a < b) := containsInt_iff s e a b h h2
+
+/-! ## T2 — bounds, the re-chunked parent, member sequences -/
+
+/-- T2a: whole-chromosome source: `_subset_parent(start, end)` = the stretch `[start,end)` of the sequence. -/
+theorem subset_parent_whole (src : Source) (seq : List Char) (hp : src.par = .whole seq) (hb : src.bounds = none)
+    (start stop : Int) (h : 0 ≤ start ∧ start < stop ∧ stop ≤ seq.length) :
+    subsetParent src start stop =
+      .ok (if start = 0 ∧ stop = seq.length then .whole seq else .chunk start stop (slice seq start stop)) :=
+  subsetParent_whole src seq hp hb start stop h
+
+/-- T2b: already-chunked source `[cs, cs+len)`: the stretch `[start,end)`, read at `start - cs` of the chunk. -/
+theorem subset_parent_chunk (src : Source) (cs : Int) (seq : List Char) (hp : src.par = .chunk cs seq)
+    (hb : src.bounds = none) (hcs : 0 ≤ cs) (start stop : Int)
+    (h : cs ≤ start ∧ start < stop ∧ stop ≤ cs + seq.length) :
+    subsetParent src start stop =
+      .ok (if start = cs ∧ stop = cs + seq.length then .chunk cs (cs + seq.length) seq
+           else .chunk start stop (slice seq (start - cs) (stop - cs))) :=
+  subsetParent_chunk src cs seq hp hb hcs start stop h
+
+/-- T2c: a member's sequence computed the model's way (lift onto the new chunk, slice the chunk's sequence) is the
+    spec's (bases of the member ∩ new range read at chromosome coordinates). -/
+theorem member_sequence (rp : RPar) (g : GChild) (hg : g.start ≤ g.stop)
+    (hrp : match rp with
+           | .whole seq => 0 ≤ g.start ∧ g.stop ≤ seq.length
+           | .chunk cs ce _ => cs ≤ ce
+           | _ => True) :
+    (memberSeq rp g).norm = (expectMSeq rp g).norm := memberSeq_norm_eq_expect rp g hg hrp
+
+/-- T1 + T2 (the full clause for position queries): for EVERY well-formed source that has bounds, EVERY range
+    (incl. None, negative, inverted, empty, out of bounds) and EVERY flag combination, the answer of the modelled
+    `query_by_position` is accepted by the specification: rejected iff the range is not a non-empty sub-range of the
+    bounds (or the expansion leaves the sequence), else exactly the `specFilter` members with unchanged
+    coordinates / identifiers / guids, the documented bounds, the source's sequence restricted to them, and member
+    sequences restricted likewise.
+    Excluded (findings, witnesses below): F-C09a (`hco`), F-C09b / F-C08a (`SrcWF.par`), F-C19f (`hb`). -/
+theorem query_by_position_meets_spec (src : Source) (q : PosQ) (wf : SrcWF src) (b : Int × Int)
+    (hb : selfBounds src = some b) (hco : q.codingOnly = true → ∀ c ∈ src.children, c.kind ≠ .var) :
+    okQueryByPosition src q (toAns (queryByPosition src q)) = true :=
+  queryByPosition_meets src q wf b hb hco
+
+/-- T2d (corollary): an accepted answer carries the documented bounds. -/
+theorem result_bounds_documented (src : Source) (q : PosQ) (wf : SrcWF src) (bs be : Int)
+    (hb : selfBounds src = some (bs, be)) (hco : q.codingOnly = true → ∀ c ∈ src.children, c.kind ≠ .var)
+    (r : Result) (hr : queryByPosition src q = .ok r) :
+    (r.start, r.stop) = resultBounds q (optOr q.s bs) (optOr q.e be)
+      (specFilter src.children q.codingOnly q.cw (optOr q.s bs) (optOr q.e be)) := by
+  have h := queryByPosition_meets src q wf (bs, be) hb hco
+  rw [hr] at h
+  unfold okQueryByPosition expectQueryByPosition at h
+  rw [specBounds_eq_self hb] at h
+  simp only [toAns] at h
+  split at h
+  · simp [meets] at h
+  · split at h
+    · simp [meets] at h
+    · simp only [meets, beq_iff_eq] at h
+      have h1 := congrArg Result.start h
+      have h2 := congrArg Result.stop h
+      simp only [Result.norm, expectResult] at h1 h2
+      rw [h1, h2]
+
+/-! ## hypotheses are satisfiable (non-vacuity) -/
+
+def exG1 : GChild := ⟨2, 5, .plus, 1000⟩
+def exG2 : GChild := ⟨3, 8, .minus, 1001⟩
+def exGene : Child := ⟨.gene, 2, 8, true, 1, [['a'], ['b']], [exG1, exG2]⟩
+def exFeat : Child := ⟨.feat, 6, 10, false, 2, [['a']], [⟨6, 10, .minus, 1100⟩]⟩
+def exSeq : List Char := ['A','C','G','T','T','G','C','A','A','G','C','T']
+def exW : Source := ⟨.whole exSeq, none, [exGene, exFeat]⟩
+def exK : Source := ⟨.chunk 3 ['T','T','G','C','A','A'], none, [exGene, exFeat]⟩
+
+example : ChildWF exGene := ⟨by decide, by decide⟩
+example : ChildHull exGene := ⟨by decide, by decide⟩
+
+theorem exW_wf : SrcWF exW := by
+  refine ⟨?_, by decide, ?_⟩
+  · intro c hc
+    simp only [exW, List.mem_cons, List.not_mem_nil, or_false] at hc
+    rcases hc with rfl | rfl <;> exact ⟨by decide, by decide⟩
+  · simp only [ParWF, exW, true_and]
+    intro c hc
+    simp only [List.mem_cons, List.not_mem_nil, or_false] at hc
+    rcases hc with rfl | rfl <;> exact ⟨by decide, by decide⟩
+
+example : selfBounds exW = some (0, 12) := rfl
+example : okQueryByPosition exW ⟨some 4, some 7, false, false, false⟩
+    (toAns (queryByPosition exW ⟨some 4, some 7, false, false, false⟩)) = true :=
+  query_by_position_meets_spec exW _ exW_wf (0, 12) rfl (by intro h; cases h)
+
+/-! ## F — the modelled current code deviates on the finding inputs -/
+
+/-- F-C09a (general): `coding_only=True` on a collection holding a VariantIntervalCollection ends in
+    AttributeError for every valid range (the specification wants the coding genes). -/
+theorem F_C09a_coding_only_with_variants (src : Source) (s e : Int) (cw : Bool) (hs : 0 ≤ s) (hse : s < e)
+    (hwf : ∀ c ∈ src.children, ChildWF c) (hv : ∃ c ∈ src.children, c.kind = .var) :
+    queryKept src s e cw true = .error .attributeError :=
+  queryKept_codingOnly_variant src s e cw hs hse hwf hv
+
+/-- F-C19f: an empty collection without a located parent has no bounds: AttributeError, not InvalidQueryError. -/
+theorem F_C19f_empty_collection :
+    queryByPosition ⟨.none, none, []⟩ ⟨some 0, some 1, false, true, false⟩ = .error .attributeError
+    ∧ okQueryByPosition ⟨.none, none, []⟩ ⟨some 0, some 1, false, true, false⟩ .raised = false := ⟨rfl, rfl⟩
+
+/-- F-C09b: a sequence-less parent: `_subset_parent` runs into `extract_sequence()`. -/
+theorem F_C09b_sequence_less_parent :
+    subsetParent ⟨.noseq, some (2, 8), [⟨.gene, 2, 8, false, 1, [], [⟨2, 8, .plus, 1000⟩]⟩]⟩ 3 8
+      = .error (.doc .NullSequence) := rfl
+
+/-- F-C09c: id query on a chunk `[3,9)` keeping a member that ends at 10: the clamp `end = chromosome_location.end - 1`
+    yields the chunk `[3,8)` — one base short of the specified `[3,9)`. -/
+theorem F_C09c_end_clamp :
+    subsetParent exK 2 10 = .ok (.chunk 3 8 ['T','T','G','C','A'])
+    ∧ expectPar exK.par 2 10 = .chunk 3 9 ['T','T','G','C','A','A'] := ⟨rfl, by decide⟩
+
 end BioCantor.Props.C09
